@@ -1,6 +1,8 @@
 import SqlgrepModel.Lemmas.AggSummaryTable
 import SqlgrepModel.Lemmas.AggPermSafe
+import SqlgrepModel.Lemmas.AggSplitSummaries
 import SqlgrepModel.Lemmas.RealSums
+import SqlgrepModel.Lemmas.ValueDecEq
 /-
 C15 — order-insensitive aggregates ignore line order and how the input is split.
 
@@ -12,9 +14,21 @@ the specification every cell is a function of its group's row list. Here:
   * `agg_perm_invariant`           hence the specification's table is the same for every permutation of the rows;
   * `engine_perm_invariant`        and so is the table the engine shows (through the refinement);
   * `batch_run_ignores_line_order` and what the executed batch run `runBatch` prints for a file and any permutation of it;
+  * `deviation_class_ignores_line_order` the known deviation classes of C04 (D10, D15) are a function of the multiset of the
+        rows for these statements — so the theorems above ask for "outside D10 / D15" for ONE of the two inputs only;
   * `concat_*`                     the result over a concatenation is the key-wise combination of the parts: the groups
         are the union, a group's rows are its rows in part one followed by its rows in part two, counts and sums add,
-        minima and maxima combine.
+        minima and maxima combine;
+  * `agg_concat_merge` / `agg_concat_merge_all` the same at table level (all aggregates the property names: through keyed
+        summaries); `agg_concat_merge_summaries`, `table_of_concat_is_merge_of_part_summaries` with the summaries NAMED:
+        `partSummaries O q rᵢ` is what part i remembers, the summaries of `r₁ ++ r₂` are `mergeSummaries q S₁ S₂`, every
+        table is `tableOfSummaries` of its summaries;
+  * `batch_run_of_split_is_merge_of_summaries`, `batch_run_of_concat_is_merge_of_summaries` at the level of the executed
+        batch run: what `runBatch` prints for `l₁ ++ l₂` (one file, or the two files `[l₁, l₂]`) is the table of the merged
+        per-part summaries (`Props/PipelineLines.lean` `split_input_is_merge_of_summaries` carries it to `runText`);
+  * a complete instance at the end: GROUP BY with COUNT(*), SUM, AVG, VARIANCE, MIN, MAX, PERCENTILE, COUNT(DISTINCT), INT
+        and REAL arguments, `SplitSafe` proved for every group key (`splitSafe_of_ints`, `splitSafeInputsB_sound`), every
+        hypothesis discharged, summaries and tables evaluated by the kernel.
 
 The hypotheses are stated, never hidden — and ONE of them the property does NOT grant:
   * `SumsOrderFree`, INT / INTERVAL clause (`intOk`): the partial sums stay within range in EVERY order. The sentence grants an
@@ -61,29 +75,39 @@ theorem agg_perm_invariant {O : Oracles} {q : AggStmt} {rows₁ rows₂ : List E
 theorem keyed_rows_permute (O : Oracles) (q : AggStmt) {rows₁ rows₂ : List Env} (h : rows₁.Perm rows₂) :
     OptPerm (keyedRows O q rows₁) (keyedRows O q rows₂) := keyedRows_perm O q h
 
+/-- **the known deviation classes of C04 (D10, D15) do not depend on line order** for the statements of C15: D15 looks at
+the first value of ARRAY_AGG in a group (an order-sensitive aggregate, excluded here), D10 at whether some aggregate of a
+group has an argument value at all / a non-NULL one — a property of the multiset of the group's rows. No hypothesis on
+keys, values or sums. (With ARRAY_AGG it is false: `deviation_class_of_array_agg_depends_on_order` below.) -/
+theorem deviation_class_ignores_line_order {O : Oracles} {q : AggStmt}
+    (hOI : ∀ kind ∈ slotKinds q, orderInsensitive kind = true) {rows₁ rows₂ : List Env} (h : rows₁.Perm rows₂) :
+    deviationClass O q rows₁ = deviationClass O q rows₂ :=
+  deviationClass_perm hOI h
+
 /-- **the engine's table ignores line order**: the engine run (every row through `execute_update`, then `execute_result`
 + LIMIT) over an input and over any permutation of it both succeed and show the same table, whenever the
-specification fixes the outcome of the first and both inputs are outside the known deviation classes of C04 (D10, D15). -/
+specification fixes the outcome of the first and the first input is outside the known deviation classes of C04 (D10, D15)
+— the permuted input is then outside them as well (`deviation_class_ignores_line_order`). -/
 theorem engine_perm_invariant {O : Oracles} {q : AggStmt} (hwf : StmtWF q) {rows₁ rows₂ : List Env} (h : rows₁.Perm rows₂)
     (hsafe : ∀ keyed, keyedRows O q rows₁ = some keyed → PermSafe O q keyed)
     {t : List (List Value)} (hspec : table O q rows₁ = some t)
-    (hc₁ : deviationClass O q rows₁ = "") (hc₂ : deviationClass O q rows₂ = "") :
+    (hc₁ : deviationClass O q rows₁ = "") :
     (aggRun O q rows₁ {}).bind (fun st => finalResult O q { agg := st }) =
       (aggRun O q rows₂ {}).bind (fun st => finalResult O q { agg := st }) := by
+  have hc₂ : deviationClass O q rows₂ = "" := by rw [deviationClass_perm_of_safe h hsafe hspec]; exact hc₁
   rw [engine_refines_spec_total hwf rows₁ hspec hc₁]
   rw [engine_refines_spec_total hwf rows₂ (by rw [← table_perm h hsafe]; exact hspec) hc₂]
 
 /-- **the executed batch run ignores line order** (`runBatch` = the `FileExecutor` loop the driver runs): for an aggregate
 statement without join and two files whose lines are permutations of each other, the printed table and the line count
-are the same — whenever the specification answers for the first file with an empty deviation class (C04), `PermSafe` holds
-for its admitted rows, and the second file is outside D10/D15 as well -/
+are the same — whenever the specification answers for the first file with an empty deviation class (C04) and `PermSafe`
+holds for its admitted rows -/
 theorem batch_run_ignores_line_order {O : Oracles} {qy : Query} {q : AggStmt} (hq : qy.stmt = .aggregate q) (hwf : StmtWF q)
     (hj : qy.join = none) (joined : List FileLine) {l₁ l₂ : List FileLine} (hp : l₁.Perm l₂)
     (hsafe : ∀ keyed, keyedRows O q (envsOf qy.table l₁) = some keyed → PermSafe O q keyed)
-    {ro : RunOut} (h₁ : Spec.Agg.batch O qy q joined [l₁] = some (ro, ""))
-    (hc₂ : deviationClass O q (envsOf qy.table l₂) = "") :
+    {ro : RunOut} (h₁ : Spec.Agg.batch O qy q joined [l₁] = some (ro, "")) :
     runBatch O qy joined [l₁] none = runBatch O qy joined [l₂] none :=
-  runBatch_perm_invariant hq hwf hj joined hp hsafe h₁ hc₂
+  runBatch_perm_invariant hq hwf hj joined hp hsafe h₁
 
 /-! ### input split: the result over `r₁ ++ r₂` is the key-wise combination of the results over `r₁` and `r₂` -/
 
@@ -215,6 +239,113 @@ theorem agg_concat_merge_all {O : Oracles} {q : AggStmt} (hwf : StmtWF q)
       tableOfSummaries O q (mergeG (combineS (slotList q)) S₁ S₂) = some t :=
   table_concat_merge_all hwf hOI r₁ r₂ h h₁ h₂ hsafe
 
+/-- **`agg_concat_merge_all` with the summaries NAMED.** Same statements, inputs and provisos. `partSummaries O q r`
+(`Lemmas/AggSplitSummaries.lean`) = `keyedSummaries` of the rows of `r` that pass WHERE: what a part has to remember — per
+group, one summary per aggregate. Then: the admitted rows of `r₁ ++ r₂` are those of `r₁` followed by those of `r₂`; the
+keyed summaries of the whole ARE the key-wise combination `mergeSummaries q S₁ S₂` (= `mergeG (combineS (slotList q)) S₁ S₂`)
+of the parts' keyed summaries `S₁`, `S₂`; and the three tables are `tableOfSummaries` of `S₁`, `S₂` and of the combination.
+The three `= some` hypotheses stay: the table of the whole can exist while a part's does not (an INT partial sum of the
+second part alone may leave the range although, after the first part's sum, none does) and the other way round. -/
+theorem agg_concat_merge_summaries {O : Oracles} {q : AggStmt} (hwf : StmtWF q)
+    (hOI : ∀ kind ∈ slotKinds q, orderInsensitive kind = true) (r₁ r₂ : List Env) {t t₁ t₂ : List (List Value)}
+    (h : table O q (r₁ ++ r₂) = some t) (h₁ : table O q r₁ = some t₁) (h₂ : table O q r₂ = some t₂)
+    (hsafe : ∀ k₁ k₂, keyedRows O q r₁ = some k₁ → keyedRows O q r₂ = some k₂ →
+      ∀ k, SplitSafe O q (rowsOfKey k k₁) (rowsOfKey k k₂)) :
+    ∃ k₁ k₂ S₁ S₂, keyedRows O q r₁ = some k₁ ∧ keyedRows O q r₂ = some k₂ ∧ keyedRows O q (r₁ ++ r₂) = some (k₁ ++ k₂) ∧
+      keyedSummaries O q k₁ = some S₁ ∧ keyedSummaries O q k₂ = some S₂ ∧
+      keyedSummaries O q (k₁ ++ k₂) = some (mergeSummaries q S₁ S₂) ∧
+      tableOfSummaries O q S₁ = some t₁ ∧ tableOfSummaries O q S₂ = some t₂ ∧
+      tableOfSummaries O q (mergeSummaries q S₁ S₂) = some t :=
+  table_concat_merge_summaries hwf hOI r₁ r₂ h h₁ h₂ hsafe
+
+/-- … and without `∃`, as equations between functions of the inputs: the summaries of the whole are the merged summaries
+of the parts, and every one of the three tables is `tableOfSummaries` of its summaries — so the table over `r₁ ++ r₂` is
+determined by `partSummaries O q r₁` and `partSummaries O q r₂` -/
+theorem table_of_concat_is_merge_of_part_summaries {O : Oracles} {q : AggStmt} (hwf : StmtWF q)
+    (hOI : ∀ kind ∈ slotKinds q, orderInsensitive kind = true) (r₁ r₂ : List Env) {t t₁ t₂ : List (List Value)}
+    (h : table O q (r₁ ++ r₂) = some t) (h₁ : table O q r₁ = some t₁) (h₂ : table O q r₂ = some t₂)
+    (hsafe : ∀ k₁ k₂, keyedRows O q r₁ = some k₁ → keyedRows O q r₂ = some k₂ →
+      ∀ k, SplitSafe O q (rowsOfKey k k₁) (rowsOfKey k k₂)) :
+    partSummaries O q (r₁ ++ r₂) =
+      (partSummaries O q r₁).bind (fun S₁ => (partSummaries O q r₂).map (fun S₂ => mergeSummaries q S₁ S₂)) ∧
+    table O q r₁ = (partSummaries O q r₁).bind (tableOfSummaries O q) ∧
+    table O q r₂ = (partSummaries O q r₂).bind (tableOfSummaries O q) ∧
+    table O q (r₁ ++ r₂) = (partSummaries O q (r₁ ++ r₂)).bind (tableOfSummaries O q) :=
+  partSummaries_concat hwf hOI r₁ r₂ h h₁ h₂ hsafe
+
+/-- **the executed batch run over a split input** (`runBatch` = the `FileExecutor` loop the driver runs; carried there
+through the C04 refinement `batch_refines_spec_nojoin`). For an aggregate statement without join whose aggregates are
+order-insensitive, and file lists `f`, `f₁`, `f₂` such that the lines of `f` are the lines of `f₁` followed by the lines of `f₂`
+(one file cut in two, a list of files cut in two, …): whenever the specification answers for the three inputs — with an
+empty deviation class (C04: D10, D15) for the two parts; its class `cls` for the whole is then empty as well,
+`specBatch_concat_class` — and `SplitSafe` holds per group, there are — explicitly: `Sᵢ = partSummaries` of the
+rows of part i — keyed summaries `S₁`, `S₂` such that `runBatch` over part i prints `tableOfSummaries O q Sᵢ` and counts the
+part's lines, and `runBatch` over the whole prints `tableOfSummaries O q (mergeSummaries q S₁ S₂)` and counts all lines
+(`tableOut q t n` = the table `t` under the statement's column names printed once, `n` lines, no error). -/
+theorem batch_run_of_split_is_merge_of_summaries {O : Oracles} {qy : Query} {q : AggStmt} (hq : qy.stmt = .aggregate q)
+    (hwf : StmtWF q) (hj : qy.join = none) (hOI : ∀ kind ∈ slotKinds q, orderInsensitive kind = true) (joined : List FileLine)
+    {f f₁ f₂ : List (List FileLine)} (hf : f.flatten = f₁.flatten ++ f₂.flatten) {ro ro₁ ro₂ : RunOut} {cls : String}
+    (h : Spec.Agg.batch O qy q joined f = some (ro, cls)) (h₁ : Spec.Agg.batch O qy q joined f₁ = some (ro₁, ""))
+    (h₂ : Spec.Agg.batch O qy q joined f₂ = some (ro₂, ""))
+    (hsafe : ∀ k₁ k₂, keyedRows O q (envsOf qy.table f₁.flatten) = some k₁ → keyedRows O q (envsOf qy.table f₂.flatten) = some k₂ →
+      ∀ k, SplitSafe O q (rowsOfKey k k₁) (rowsOfKey k k₂)) :
+    ∃ S₁ S₂ t₁ t₂ t,
+      partSummaries O q (envsOf qy.table f₁.flatten) = some S₁ ∧ partSummaries O q (envsOf qy.table f₂.flatten) = some S₂ ∧
+      tableOfSummaries O q S₁ = some t₁ ∧ tableOfSummaries O q S₂ = some t₂ ∧
+      tableOfSummaries O q (mergeSummaries q S₁ S₂) = some t ∧
+      runBatch O qy joined f₁ none = tableOut q t₁ f₁.flatten.length ∧
+      runBatch O qy joined f₂ none = tableOut q t₂ f₂.flatten.length ∧
+      runBatch O qy joined f none = tableOut q t (f₁.flatten.length + f₂.flatten.length) :=
+  runBatch_concat_merge_summaries hq hwf hj hOI joined hf h h₁ h₂ hsafe
+
+/-- **the deviation class of a concatenation is empty when the classes of both parts are** (and the table of the whole
+exists): a group of the whole has rows in some part and is visible (D10) there; an aggregate that creates an entry for a part of
+a group creates one for the whole group. Hence the split theorems ask "outside D10 / D15" of the PARTS only. The converse fails
+(example at the end: a group invisible in one part, visible in the whole). -/
+theorem deviation_class_of_concat {O : Oracles} {q : AggStmt} (hwf : StmtWF q)
+    (hOI : ∀ kind ∈ slotKinds q, orderInsensitive kind = true) {r₁ r₂ : List Env} {t : List (List Value)}
+    (h : table O q (r₁ ++ r₂) = some t) {k₁ k₂ : List (List Value × Env)}
+    (hk₁ : keyedRows O q r₁ = some k₁) (hk₂ : keyedRows O q r₂ = some k₂)
+    (hc₁ : deviationClass O q r₁ = "") (hc₂ : deviationClass O q r₂ = "") : deviationClass O q (r₁ ++ r₂) = "" :=
+  deviationClass_concat hwf hOI h hk₁ hk₂ hc₁ hc₂
+
+/-- what a batch run answers for keyed summaries `S` and `n` lines read: their table printed once (`none`: HAVING or a
+transform has no value on the finished summaries) -/
+def outOfSummaries (O : Oracles) (q : AggStmt) (n : Nat) (S : List (List Value × List Summary)) : Option RunOut :=
+  (tableOfSummaries O q S).map (fun t => tableOut q t n)
+
+/-- **`batch_run_of_concat_is_merge_of_summaries`** — the same for two line lists, without `∃`: what `runBatch` answers for
+the one file `l₁ ++ l₂` is `outOfSummaries` of the merged `partSummaries` of `l₁` and of `l₂`; for the two files `[l₁, l₂]` it
+answers the same; and for each part alone it answers `outOfSummaries` of that part's `partSummaries`. So the output over
+`l₁ ++ l₂` is a function of the two per-part summaries (and the two line counts). -/
+theorem batch_run_of_concat_is_merge_of_summaries {O : Oracles} {qy : Query} {q : AggStmt} (hq : qy.stmt = .aggregate q)
+    (hwf : StmtWF q) (hj : qy.join = none) (hOI : ∀ kind ∈ slotKinds q, orderInsensitive kind = true) (joined : List FileLine)
+    (l₁ l₂ : List FileLine) {ro ro₁ ro₂ : RunOut} {cls : String}
+    (h : Spec.Agg.batch O qy q joined [l₁ ++ l₂] = some (ro, cls)) (h₁ : Spec.Agg.batch O qy q joined [l₁] = some (ro₁, ""))
+    (h₂ : Spec.Agg.batch O qy q joined [l₂] = some (ro₂, ""))
+    (hsafe : ∀ k₁ k₂, keyedRows O q (envsOf qy.table l₁) = some k₁ → keyedRows O q (envsOf qy.table l₂) = some k₂ →
+      ∀ k, SplitSafe O q (rowsOfKey k k₁) (rowsOfKey k k₂)) :
+    some (runBatch O qy joined [l₁ ++ l₂] none) =
+      ((partSummaries O q (envsOf qy.table l₁)).bind (fun S₁ =>
+        (partSummaries O q (envsOf qy.table l₂)).map (fun S₂ => mergeSummaries q S₁ S₂))).bind
+          (outOfSummaries O q (l₁.length + l₂.length)) ∧
+    runBatch O qy joined [l₁, l₂] none = runBatch O qy joined [l₁ ++ l₂] none ∧
+    some (runBatch O qy joined [l₁] none) = (partSummaries O q (envsOf qy.table l₁)).bind (outOfSummaries O q l₁.length) ∧
+    some (runBatch O qy joined [l₂] none) = (partSummaries O q (envsOf qy.table l₂)).bind (outOfSummaries O q l₂.length) := by
+  have hf : [l₁ ++ l₂].flatten = [l₁].flatten ++ [l₂].flatten := by simp
+  have hcls := specBatch_concat_class hwf hj hOI joined hf h h₁ h₂
+  subst hcls
+  obtain ⟨S₁, S₂, t₁, t₂, t, hS₁, hS₂, hT₁, hT₂, hT, e₁, e₂, e⟩ :=
+    runBatch_concat_merge_summaries hq hwf hj hOI joined hf h h₁ h₂ (by simpa using hsafe)
+  simp only [List.flatten_cons, List.flatten_nil, List.append_nil] at hS₁ hS₂ e₁ e₂ e
+  have h' : Spec.Agg.batch O qy q joined [l₁, l₂] = some (ro, "") := by
+    rw [batch_flatten_congr O qy q joined (f := [l₁, l₂]) (g := [l₁ ++ l₂]) (by simp)]; exact h
+  refine ⟨?_, ?_, ?_, ?_⟩
+  · simp only [hS₁, hS₂, Option.bind_some, Option.map_some, outOfSummaries, hT, e]
+  · rw [batch_refines_spec_nojoin hq hwf hj joined _ h', batch_refines_spec_nojoin hq hwf hj joined _ h]
+  · simp only [hS₁, Option.bind_some, outOfSummaries, hT₁, Option.map_some, e₁]
+  · simp only [hS₂, Option.bind_some, outOfSummaries, hT₂, Option.map_some, e₂]
+
 /-- every order-insensitive aggregate is the `finishSummary` of its part-wise summary … -/
 theorem aggregate_is_finished_summary (k : AggKind) (hk : orderInsensitive k = true) (vs : List Value) :
     aggregate k vs = (summarize k vs).bind (finishSummary k) := aggregate_eq_finish k hk vs
@@ -318,6 +449,22 @@ def exSumMinInt : AggStmt :=
 example : table {} exSumMinInt exRows = some [[.text [97], .int 3, .int 2, .int (-1), .int 3], [.text [98], .int 2, .int 9, .int 2, .int 7]] ∧
     table {} exSumMinInt exRows.reverse = table {} exSumMinInt exRows := ⟨rfl, rfl⟩
 
+/-- `SELECT ARRAY_AGG(v) FROM t` -/
+def exArr : AggStmt :=
+  { items := [{ name := "array_agg0", kind := .arrayAgg (.column "v"), transform := none }], filter := none, groupBy := none,
+    having := none, havingAggs := [], havingKeys := [], havingVisit := [], limit := none, distinct := false }
+/-- **why `deviation_class_ignores_line_order` excludes ARRAY_AGG**: for `SELECT ARRAY_AGG(v)` the rows (NULL, 1) fall into
+D15 (the first value is NULL) and the same rows in the order (1, NULL) do not -/
+theorem deviation_class_of_array_agg_depends_on_order :
+    [rowKV 97 .null, rowKV 97 (.int 1)].Perm [rowKV 97 (.int 1), rowKV 97 .null] ∧
+    deviationClass {} exArr [rowKV 97 .null, rowKV 97 (.int 1)] = "D15:array_agg-first-value-null" ∧
+    deviationClass {} exArr [rowKV 97 (.int 1), rowKV 97 .null] = "" :=
+  ⟨List.Perm.swap _ _ _, by decide +kernel, by decide +kernel⟩
+/-- the deviation class of the example rows (`SELECT k, COUNT(*), SUM(v), … GROUP BY k`) is empty, and so it is for every
+permutation of them -/
+example (rows₂ : List Env) (h : exRows.Perm rows₂) : deviationClass {} exPct rows₂ = "" := by
+  rw [← deviation_class_ignores_line_order (by decide) h]; decide +kernel
+
 /-- the hypotheses of the input split (`SplitSafe` of `agg_concat_merge_all`) hold for INT arguments -/
 example (v₁ v₂ : List Value) (h₁ : ∀ v ∈ nonNull v₁, ∃ i, v = .int i) (h₂ : ∀ v ∈ nonNull v₂, ∃ i, v = .int i) :
     SplitExact (nonNull v₁) (nonNull v₂) := splitExact_of_ints h₁ h₂
@@ -372,5 +519,204 @@ example : (summarize (.avg (.column "v")) [.int 2, .int 4]).bind (fun a => (summ
     (fun b => finishSummary (.avg (.column "v")) (combine (.avg (.column "v")) a b))) = some (.int 3) := rfl
 /-- COUNT(DISTINCT) through set union: {1, 2} and {2, 3} unite to three values -/
 example : combine (.count (some "v") true) (.distinct [.int 1, .int 2]) (.distinct [.int 2, .int 3]) = .distinct [.int 1, .int 2, .int 3] := rfl
+
+/-! ### a complete instance of the input split: every hypothesis discharged, every table evaluated -/
+
+deriving instance DecidableEq for Summary
+
+/-- `SELECT k, COUNT(*), SUM(v), AVG(v), VARIANCE(v), MIN(v), MAX(v), PERCENTILE(v, 0.5), COUNT(DISTINCT v) FROM t GROUP BY k` -/
+def exAll : AggStmt :=
+  { exPct with items := exPct.items ++ [{ name := "count8", kind := .count (some "v") true, transform := none }] }
+theorem exAll_wf : StmtWF exAll := ⟨rfl, fun _ => rfl⟩
+theorem exAll_kinds : ∀ kind ∈ slotKinds exAll, orderInsensitive kind = true := by decide
+
+/-- part two: rows (a, 5), (c, 4), (b, 7) — part one is `exRows`: (a, 3), (b, 7), (a, NULL), (a, -1), (b, 2) -/
+def exPart₂ : List Env := [rowKV 97 (.int 5), rowKV 99 (.int 4), rowKV 98 (.int 7)]
+def exKeyed₂ : List (List Value × Env) :=
+  [([.text [97]], rowKV 97 (.int 5)), ([.text [99]], rowKV 99 (.int 4)), ([.text [98]], rowKV 98 (.int 7))]
+example : keyedRows {} exAll exRows = some exKeyed ∧ keyedRows {} exAll exPart₂ = some exKeyed₂ := ⟨rfl, rfl⟩
+
+/-- **`SplitSafe` holds for every group key** of these two parts — by the INT criterion … -/
+example : ∀ k, SplitSafe {} exAll (rowsOfKey k exKeyed) (rowsOfKey k exKeyed₂) :=
+  splitSafe_of_ints (by decide) (by decide)
+/-- … and by the general decidable check (REAL addends `ExactSums`, PERCENTILE values simple), in the form the theorems take -/
+theorem exAll_splitSafe : ∀ k₁ k₂, keyedRows {} exAll exRows = some k₁ → keyedRows {} exAll exPart₂ = some k₂ →
+    ∀ k, SplitSafe {} exAll (rowsOfKey k k₁) (rowsOfKey k k₂) :=
+  splitSafeInputsB_sound (by decide +kernel)
+
+/-- the three tables (columns: k, COUNT(*), SUM, AVG, VARIANCE, MIN, MAX, PERCENTILE 0.5, COUNT DISTINCT; the variances
+4.0, 6.25, 56/9, 50/9 as bit patterns) -/
+def exT₁ : List (List Value) :=
+  [[.text [97], .int 3, .int 2, .int 1, .real 0x4010000000000000, .int (-1), .int 3, .int 3, .int 2],
+   [.text [98], .int 2, .int 9, .int 4, .real 0x4019000000000000, .int 2, .int 7, .int 7, .int 2]]
+def exT₂ : List (List Value) :=
+  [[.text [97], .int 1, .int 5, .int 5, .real 0, .int 5, .int 5, .int 5, .int 1],
+   [.text [98], .int 1, .int 7, .int 7, .real 0, .int 7, .int 7, .int 7, .int 1],
+   [.text [99], .int 1, .int 4, .int 4, .real 0, .int 4, .int 4, .int 4, .int 1]]
+def exT : List (List Value) :=
+  [[.text [97], .int 4, .int 7, .int 2, .real 0x4018e38e38e38e39, .int (-1), .int 5, .int 3, .int 3],
+   [.text [98], .int 3, .int 16, .int 5, .real 0x401638e38e38e390, .int 2, .int 7, .int 7, .int 2],
+   [.text [99], .int 1, .int 4, .int 4, .real 0, .int 4, .int 4, .int 4, .int 1]]
+theorem exAll_tables : table {} exAll exRows = some exT₁ ∧ table {} exAll exPart₂ = some exT₂ ∧
+    table {} exAll (exRows ++ exPart₂) = some exT := by decide +kernel
+
+/-- what each part remembers: per group — nothing for the key; the count; the sum; sum and count; sum, sum of squares and
+count; the minimum; the maximum; the sorted values; the distinct values -/
+def exS₁ : List (List Value × List Summary) :=
+  [([.text [97]], [.key, .count 3, .sum (.int 2), .avg (.int 2) 2, .moments (.int 2) (.int 10) 2, .extreme (.int (-1)),
+      .extreme (.int 3), .sorted [.int (-1), .int 3], .distinct [.int 3, .int (-1)]]),
+   ([.text [98]], [.key, .count 2, .sum (.int 9), .avg (.int 9) 2, .moments (.int 9) (.int 53) 2, .extreme (.int 2),
+      .extreme (.int 7), .sorted [.int 2, .int 7], .distinct [.int 7, .int 2]])]
+def exS₂ : List (List Value × List Summary) :=
+  [([.text [97]], [.key, .count 1, .sum (.int 5), .avg (.int 5) 1, .moments (.int 5) (.int 25) 1, .extreme (.int 5),
+      .extreme (.int 5), .sorted [.int 5], .distinct [.int 5]]),
+   ([.text [98]], [.key, .count 1, .sum (.int 7), .avg (.int 7) 1, .moments (.int 7) (.int 49) 1, .extreme (.int 7),
+      .extreme (.int 7), .sorted [.int 7], .distinct [.int 7]]),
+   ([.text [99]], [.key, .count 1, .sum (.int 4), .avg (.int 4) 1, .moments (.int 4) (.int 16) 1, .extreme (.int 4),
+      .extreme (.int 4), .sorted [.int 4], .distinct [.int 4]])]
+/-- the key-wise combination: groups a, b, c; in a and b counts add (3+1, 2+1), sums add (2+5, 9+7), sums of squares add
+(10+25, 53+49), minima / maxima combine, sorted multisets merge, distinct sets unite (b: {7, 2} ∪ {7}); c is kept -/
+def exS : List (List Value × List Summary) :=
+  [([.text [97]], [.key, .count 4, .sum (.int 7), .avg (.int 7) 3, .moments (.int 7) (.int 35) 3, .extreme (.int (-1)),
+      .extreme (.int 5), .sorted [.int (-1), .int 3, .int 5], .distinct [.int 3, .int (-1), .int 5]]),
+   ([.text [98]], [.key, .count 3, .sum (.int 16), .avg (.int 16) 3, .moments (.int 16) (.int 102) 3, .extreme (.int 2),
+      .extreme (.int 7), .sorted [.int 2, .int 7, .int 7], .distinct [.int 7, .int 2]]),
+   ([.text [99]], [.key, .count 1, .sum (.int 4), .avg (.int 4) 1, .moments (.int 4) (.int 16) 1, .extreme (.int 4),
+      .extreme (.int 4), .sorted [.int 4], .distinct [.int 4]])]
+theorem exAll_summaries : partSummaries {} exAll exRows = some exS₁ ∧ partSummaries {} exAll exPart₂ = some exS₂ ∧
+    mergeSummaries exAll exS₁ exS₂ = exS := by decide +kernel
+
+/-- **`agg_concat_merge_summaries` applied**: every hypothesis discharged above; its conclusion, with the summaries and the
+tables evaluated: the summaries of the whole are the combination `exS` of the parts' summaries, and the three tables are the
+tables of `exS₁`, `exS₂`, `exS` -/
+example : partSummaries {} exAll (exRows ++ exPart₂) = some exS ∧
+    tableOfSummaries {} exAll exS₁ = some exT₁ ∧ tableOfSummaries {} exAll exS₂ = some exT₂ ∧
+    tableOfSummaries {} exAll exS = some exT := by
+  obtain ⟨h, h₁, h₂, h₃⟩ := table_of_concat_is_merge_of_part_summaries exAll_wf exAll_kinds exRows exPart₂
+    exAll_tables.2.2 exAll_tables.1 exAll_tables.2.1 exAll_splitSafe
+  rw [exAll_summaries.1, exAll_summaries.2.1] at h
+  simp only [Option.bind_some, Option.map_some, exAll_summaries.2.2] at h
+  rw [exAll_summaries.1, exAll_tables.1] at h₁
+  rw [exAll_summaries.2.1, exAll_tables.2.1] at h₂
+  rw [h, exAll_tables.2.2] at h₃
+  exact ⟨h, h₁.symm, h₂.symm, h₃.symm⟩
+
+/-- the same at the level of the executed batch run: the query over table `t(k, v)`, the rows as lines of two files (the
+second file has a line that yields no row: it is counted, not aggregated) -/
+def exQy : Query := { stmt := .aggregate exAll, table := { name := "t", columns := ["k", "v"] }, join := none }
+def exLine (k : Nat) (v : Value) : FileLine := { readable := true, line := { text := [], row := [.text [k], v] } }
+def exFile₁ : List FileLine := [exLine 97 (.int 3), exLine 98 (.int 7), exLine 97 .null, exLine 97 (.int (-1)), exLine 98 (.int 2)]
+def exFile₂ : List FileLine :=
+  [exLine 97 (.int 5), { readable := true, line := { text := [], row := [.null, .null] } }, exLine 99 (.int 4), exLine 98 (.int 7)]
+
+/-- hypotheses of `batch_run_of_concat_is_merge_of_summaries`: the specification answers with an empty deviation class for
+the whole and for both parts; `SplitSafe` for every group key -/
+theorem exQy_spec : (Spec.Agg.batch {} exQy exAll [] [exFile₁ ++ exFile₂]).map (·.2) = some "" ∧
+    (Spec.Agg.batch {} exQy exAll [] [exFile₁]).map (·.2) = some "" ∧
+    (Spec.Agg.batch {} exQy exAll [] [exFile₂]).map (·.2) = some "" := by decide +kernel
+theorem exQy_splitSafe : ∀ k₁ k₂, keyedRows {} exAll (envsOf exQy.table exFile₁) = some k₁ →
+    keyedRows {} exAll (envsOf exQy.table exFile₂) = some k₂ → ∀ k, SplitSafe {} exAll (rowsOfKey k k₁) (rowsOfKey k k₂) :=
+  splitSafeInputsB_sound (by decide +kernel)
+theorem exQy_summaries : partSummaries {} exAll (envsOf exQy.table exFile₁) = some exS₁ ∧
+    partSummaries {} exAll (envsOf exQy.table exFile₂) = some exS₂ ∧
+    outOfSummaries {} exAll 5 exS₁ = some (tableOut exAll exT₁ 5) ∧ outOfSummaries {} exAll 4 exS₂ = some (tableOut exAll exT₂ 4) ∧
+    tableOfSummaries {} exAll exS = some exT := by
+  refine ⟨by decide +kernel, by decide +kernel, ?_, ?_, by decide +kernel⟩
+  · have : tableOfSummaries {} exAll exS₁ = some exT₁ := by decide +kernel
+    simp only [outOfSummaries, this, Option.map_some]
+  · have : tableOfSummaries {} exAll exS₂ = some exT₂ := by decide +kernel
+    simp only [outOfSummaries, this, Option.map_some]
+
+/-- **`batch_run_of_concat_is_merge_of_summaries` applied**: `runBatch` over the one file `exFile₁ ++ exFile₂`, and over the two
+files, prints the table `exT` of the merged summaries and counts 9 lines; over each part the table of that part's summaries -/
+example : runBatch {} exQy [] [exFile₁ ++ exFile₂] none = tableOut exAll exT 9 ∧
+    runBatch {} exQy [] [exFile₁, exFile₂] none = tableOut exAll exT 9 ∧
+    runBatch {} exQy [] [exFile₁] none = tableOut exAll exT₁ 5 ∧ runBatch {} exQy [] [exFile₂] none = tableOut exAll exT₂ 4 := by
+  obtain ⟨ro, h⟩ := batch_of_class exQy_spec.1
+  obtain ⟨ro₁, h₁⟩ := batch_of_class exQy_spec.2.1
+  obtain ⟨ro₂, h₂⟩ := batch_of_class exQy_spec.2.2
+  obtain ⟨e, e', e₁, e₂⟩ := batch_run_of_concat_is_merge_of_summaries (qy := exQy) rfl exAll_wf rfl exAll_kinds [] exFile₁ exFile₂
+    h h₁ h₂ exQy_splitSafe
+  rw [exQy_summaries.1, exQy_summaries.2.1] at e
+  simp only [Option.bind_some, Option.map_some, exAll_summaries.2.2, outOfSummaries, exQy_summaries.2.2.2.2] at e
+  rw [exQy_summaries.1] at e₁
+  rw [exQy_summaries.2.1] at e₂
+  have l₁ : exFile₁.length = 5 := rfl
+  have l₂ : exFile₂.length = 4 := rfl
+  rw [l₁] at e e₁
+  rw [l₂] at e e₂
+  simp only [Option.bind_some, exQy_summaries.2.2.1, exQy_summaries.2.2.2.1] at e₁ e₂
+  have e0 := Option.some.inj e
+  exact ⟨e0, e'.trans e0, Option.some.inj e₁, Option.some.inj e₂⟩
+
+/-- **REAL arguments**: part one (a, 0.5), (b, 100.0), (a, 1.5); part two (a, -2.25), (a, NULL), (b, 0.5). `SplitSafe` for every
+group key by the decidable check: the addends of each group over both parts, and their squares, are `ExactSums` -/
+def exReal₁ : List Env := [rowKV 97 (.real 0x3fe0000000000000), rowKV 98 (.real 0x4059000000000000), rowKV 97 (.real 0x3ff8000000000000)]
+def exReal₂ : List Env := [rowKV 97 (.real 0xc002000000000000), rowKV 97 .null, rowKV 98 (.real 0x3fe0000000000000)]
+theorem exReal_splitSafe : ∀ k₁ k₂, keyedRows {} exAll exReal₁ = some k₁ → keyedRows {} exAll exReal₂ = some k₂ →
+    ∀ k, SplitSafe {} exAll (rowsOfKey k k₁) (rowsOfKey k k₂) :=
+  splitSafeInputsB_sound (by decide +kernel)
+/-- the tables of the parts and of the whole (group a: sum 2.0 / -2.25 / -0.25, average 1.0 / -2.25 / -1/12, variance 0.25 / 0 /
+181/72, minimum 0.5 / -2.25 / -2.25, maximum 1.5 / -2.25 / 1.5, median 1.5 / -2.25 / 0.5; group b: sum 100.0 / 0.5 / 100.5, …) -/
+def exRealT₁ : List (List Value) :=
+  [[.text [97], .int 2, .real 0x4000000000000000, .real 0x3ff0000000000000, .real 0x3fd0000000000000, .real 0x3fe0000000000000,
+     .real 0x3ff8000000000000, .real 0x3ff8000000000000, .int 2],
+   [.text [98], .int 1, .real 0x4059000000000000, .real 0x4059000000000000, .real 0, .real 0x4059000000000000,
+     .real 0x4059000000000000, .real 0x4059000000000000, .int 1]]
+def exRealT₂ : List (List Value) :=
+  [[.text [97], .int 2, .real 0xc002000000000000, .real 0xc002000000000000, .real 0, .real 0xc002000000000000,
+     .real 0xc002000000000000, .real 0xc002000000000000, .int 1],
+   [.text [98], .int 1, .real 0x3fe0000000000000, .real 0x3fe0000000000000, .real 0, .real 0x3fe0000000000000,
+     .real 0x3fe0000000000000, .real 0x3fe0000000000000, .int 1]]
+def exRealT : List (List Value) :=
+  [[.text [97], .int 4, .real 0xbfd0000000000000, .real 0xbfb5555555555555, .real 0x40041c71c71c71c7, .real 0xc002000000000000,
+     .real 0x3ff8000000000000, .real 0x3fe0000000000000, .int 3],
+   [.text [98], .int 2, .real 0x4059200000000000, .real 0x4049200000000000, .real 0x40a3562000000000, .real 0x3fe0000000000000,
+     .real 0x4059000000000000, .real 0x4059000000000000, .int 2]]
+theorem exReal_tables : table {} exAll exReal₁ = some exRealT₁ ∧ table {} exAll exReal₂ = some exRealT₂ ∧
+    table {} exAll (exReal₁ ++ exReal₂) = some exRealT := by decide +kernel
+/-- **`table_of_concat_is_merge_of_part_summaries` applied to REAL arguments**: the table of the whole is the table of the
+merged summaries of the parts (sums and sums of squares added by IEEE addition — exact here) -/
+example : (partSummaries {} exAll exReal₁).bind (fun S₁ => (partSummaries {} exAll exReal₂).bind (fun S₂ =>
+    tableOfSummaries {} exAll (mergeSummaries exAll S₁ S₂))) = some exRealT := by
+  obtain ⟨h, _, _, h₃⟩ := table_of_concat_is_merge_of_part_summaries exAll_wf exAll_kinds exReal₁ exReal₂
+    exReal_tables.2.2 exReal_tables.1 exReal_tables.2.1 exReal_splitSafe
+  rw [h, exReal_tables.2.2] at h₃
+  rw [h₃]
+  generalize partSummaries {} exAll exReal₁ = X
+  generalize partSummaries {} exAll exReal₂ = Y
+  cases X <;> cases Y <;> rfl
+/-- … and the merged summaries themselves, evaluated: group a remembers count 4, sum -0.25, sum of squares 7.5625, three values -/
+example : ((partSummaries {} exAll exReal₁).bind (fun S₁ => (partSummaries {} exAll exReal₂).map (fun S₂ =>
+    (mergeSummaries exAll S₁ S₂).map (fun ks => (ks.1, ks.2.take 5))))) =
+    some [([.text [97]], [.key, .count 4, .sum (.real 0xbfd0000000000000), .avg (.real 0xbfd0000000000000) 3,
+            .moments (.real 0xbfd0000000000000) (.real 0x401e400000000000) 3]),
+          ([.text [98]], [.key, .count 2, .sum (.real 0x4059200000000000), .avg (.real 0x4059200000000000) 2,
+            .moments (.real 0x4059200000000000) (.real 0x40c3882000000000) 2])] := by decide +kernel
+
+/-- the classes of the example parts and of the whole are empty (hypotheses / conclusion of `deviation_class_of_concat`) -/
+example : deviationClass {} exAll exRows = "" ∧ deviationClass {} exAll exPart₂ = "" ∧
+    deviationClass {} exAll (exRows ++ exPart₂) = "" := by decide +kernel
+/-- the converse of `deviation_class_of_concat` fails: `SELECT k, COUNT(v) … GROUP BY k` — the part (a, NULL) alone falls into D10
+(COUNT(v) creates no entry), the whole (a, NULL), (a, 1) does not -/
+def exCountV : AggStmt :=
+  { items := [{ name := "k", kind := .groupKey (.column "k") "k", transform := none },
+              { name := "count1", kind := .count (some "v") false, transform := none }],
+    filter := none, groupBy := some [(.column "k", "k")], having := none, havingAggs := [], havingKeys := [],
+    havingVisit := [], limit := none, distinct := false }
+example : deviationClass {} exCountV [rowKV 97 .null] = "D10:group-without-value-entry" ∧
+    deviationClass {} exCountV ([rowKV 97 .null] ++ [rowKV 97 (.int 1)]) = "" := by decide +kernel
+
+/-- **why the three `= some` hypotheses of the split theorems stay**: `SELECT SUM(v)` — the table of the whole exists while
+the second part's does not (after `-2^62 - 2^62` the sum `+ (2^63-1) + 2^62` stays in range; alone it overflows), and the
+parts' tables exist while the whole's does not (`(2^63-1) + 1`) -/
+def exSum : AggStmt :=
+  { items := [{ name := "sum0", kind := .sum (.column "v"), transform := none }], filter := none, groupBy := none,
+    having := none, havingAggs := [], havingKeys := [], havingVisit := [], limit := none, distinct := false }
+example : table {} exSum ([rowKV 97 (.int (-2^62)), rowKV 97 (.int (-2^62))] ++ [rowKV 97 (.int (2^63-1)), rowKV 97 (.int (2^62))]) =
+      some [[.int (2^62 - 1)]] ∧
+    table {} exSum [rowKV 97 (.int (2^63-1)), rowKV 97 (.int (2^62))] = none ∧
+    table {} exSum [rowKV 97 (.int (2^63-1))] = some [[.int (2^63-1)]] ∧ table {} exSum [rowKV 97 (.int 1)] = some [[.int 1]] ∧
+    table {} exSum ([rowKV 97 (.int (2^63-1))] ++ [rowKV 97 (.int 1)]) = none := by decide +kernel
 
 end Sqlgrep.Props.C15
